@@ -182,15 +182,21 @@ func MatchFile(name string, tags map[string]bool) bool {
 	}
 	n := len(l)
 	if n >= 2 && KnownOS[l[n-2]] && KnownArch[l[n-1]] {
-		return tags[l[n-2]] && tags[l[n-1]]
+		return matchOS(l[n-2], tags) && tags[l[n-1]]
 	}
 	if n >= 1 && KnownOS[l[n-1]] {
-		return tags[l[n-1]]
+		return matchOS(l[n-1], tags)
 	}
 	if n >= 1 && KnownArch[l[n-1]] {
 		return tags[l[n-1]]
 	}
 	return true
+}
+
+// matchOS reports whether tags selects the given GOOS.
+// As in matchTag, android also selects linux.
+func matchOS(goos string, tags map[string]bool) bool {
+	return tags[goos] || goos == "linux" && tags["android"]
 }
 
 var (
